@@ -14,10 +14,10 @@ PROPS['C17'] = dict(
                'so rounding terms carry the factor 1 + min(n, maxit). The public-eigenvectors checks run last in a case, so the open D12 finding does not mask anything else.',
     units=real_units('c17', 'c17_lobpcg.cpp'),
     runs=dict(
-        quick=[dict(unit='c17_d', cases=3000, workers=2), dict(unit='c17_f', cases=3000, workers=1), dict(unit='c17_l', cases=3000, workers=1)],
+        quick=[dict(unit='c17_d', cases=4000, workers=2), dict(unit='c17_f', cases=4000, workers=1), dict(unit='c17_l', cases=4000, workers=1)],
         thorough=[dict(unit='c17_d', cases=10000, workers=8), dict(unit='c17_f', cases=10000, workers=4), dict(unit='c17_l', cases=10000, workers=4)],
     ),
-    min=dict(quick=dict(cases=10000, nontrivial=2500, classes={'outcome/Success': 4000, 'Success_after_2+_iterations': 2500, 'eigenvalue_identity_asserted': 2500, 'B/bidiagonal_LLt': 300,
+    min=dict(quick=dict(cases=14000, nontrivial=3000, classes={'outcome/Success': 6000, 'Success_after_2+_iterations': 3000, 'eigenvalue_identity_asserted': 3000, 'B/bidiagonal_LLt': 300,
                                                             'preconditioner/jacobi': 300, 'constraints': 200, 'second_compute': 300}),
              thorough=dict(cases=150000, nontrivial=40000)),
     rule='case = (scalar, n, k, constraints m / rotated / skip-lowest, spectrum class, basis kind, B kind and kappa decades, content seed, position of the lowest eigenvalue, scales of A and B, preconditioner, start-block kind, '
